@@ -58,7 +58,7 @@ class CallGen:
         # registered names are case sensitive C identifiers
         name = self.ch.choice(["vf", "vF", "satU", "lowBits"], "fname") + f"{self.uid}_{self.n}"
         kind = ch.weighted([("ret_param", 4), ("ret_cast", 3), ("ret_bin", 3), ("local", 3), ("branch", 3), ("postinc", 4),
-                            ("nested", 4 if self.order else 0)], "fkind")
+                            ("nested", 4 if self.order else 0), ("loop", 2)], "fkind")
         A = self.cfg == "A"
         if kind == "ret_param":
             P = ch.choice(ALL_T, "P")
@@ -94,6 +94,14 @@ class CallGen:
                      [("assign", l1, ("var", "p"))], [("assign", l1, ("bin", "-", ("var", "q"), ("lit", 1, P)))]),
                     ("return", ("var", l1))]
             params = [(P, "p"), (P, "q")]
+        elif kind == "loop":
+            P = ch.choice(WIDE_T, "P")
+            R = self.pick(ALL_T, lambda r: not (A and f5b(P, r)), "R")
+            l1 = self.local_name(name, 1)
+            it = ch.choice(["i", "j", "k"], "it")
+            step = ch.choice([("bin", "+", ("var", l1), ("var", "p")), ("bin", "^", ("shift", "<<", ("var", l1), 1), ("var", "p"))], "lstep")
+            body = [("decl", P, l1, ("lit", 0, P)), ("for", it, ch.randint(0, 4, "trip"), [("assign", l1, step)]), ("return", ("var", l1))]
+            params = [(P, "p")]
         elif kind == "postinc":
             P = ch.choice(ALL_T, "P")
             T = self.pick(WIDE_T, lambda t: not f5a(P, t), "T")
@@ -306,7 +314,7 @@ def to_json(x):
 
 
 _TAGS = {"lit", "var", "reg", "cast", "bin", "shift", "cmp", "neg", "not", "cond", "call", "postinc",
-         "decl", "assign", "regassign", "if", "return", "expr", "s", "u"}
+         "decl", "assign", "regassign", "if", "return", "expr", "for", "s", "u"}
 
 
 def from_json(x):
